@@ -592,6 +592,24 @@ def m_slice_last(ctx):
     return decide(eng, ctx.st, ln == bv64(0), call_stash(ctx, a=ctx.args[0]), empty, nonempty)
 
 
+def m_vec_extend(ctx):
+    """Vec::extend(&mut v, iterable) for a modelled iterable: pushes its items in order."""
+    eng = ctx.eng
+    try:
+        it = as_iter(eng, ctx.args[1])
+    except Unsupported:
+        return eng.uninterpreted(ctx.st, ctx.frame, ctx.dest, ctx.dest_ty, ctx.ret_bb, ctx.callee, ctx.norm,
+                                 ctx.args, ctx.site)
+    stash = call_stash(ctx, it=it, vref=ctx.args[0])
+
+    def k(eng_, st, sh, item):
+        if item is None:
+            return finish_call(eng_, st, sh, mk_unit())
+        vec_push(eng_, eng_.deref(sh["vref"]), item)
+        return it_next(eng_, st, sh["it"], sh, k)
+    return it_next(eng, ctx.st, it, stash, k)
+
+
 def m_vec_truncate(ctx):
     eng = ctx.eng
     v = eng.deref(ctx.args[0])
@@ -788,9 +806,44 @@ def m_derived_ne(ctx):
     return eng.call_then(ctx.st, target, [ctx.args[0], ctx.args[1]], call_stash(ctx), cont, ctx.callee)
 
 
+def m_box_new_uninit(ctx):
+    """Box::<T>::new_uninit(): a box whose (uninitialised) pointee is materialised lazily."""
+    b = Node(fresh_root("box"), ty=ctx.dest_ty)
+    inner = Node(fresh_root("uq"))
+    ptr = Node(fresh_root("ptr"))
+    ptr.target = Node(fresh_root("uninit"))
+    inner.fields = {0: ptr}
+    b.fields = {0: inner}
+    b.target = ptr.target
+    return ctx.ret(b)
+
+
+def m_box_into_vec(ctx):
+    """std::boxed::box_assume_init_into_vec_unsafe(Box<MaybeUninit<[T; N]>>) -> Vec<T>  (lowering of vec![a, b, ..])."""
+    eng = ctx.eng
+    b = ctx.args[0]
+    t = b.target
+    if t is None:
+        t = eng.deref(eng.field(eng.field(b, 0), 0))
+    # MaybeUninit { uninit: (), value: ManuallyDrop { value: MaybeDangling(value) } }
+    arr = t
+    for k in (1, 0, 0):
+        if arr.fields is None or k not in arr.fields:
+            raise Unsupported("box_assume_init_into_vec_unsafe: array not initialised the way rustc lowers vec![]")
+        arr = arr.fields[k]
+    v = Node(fresh_root("vec"), ty=ctx.dest_ty)
+    buf = copy_node(arr)
+    if buf.length is None:
+        raise Unsupported("vec![] array without length")
+    v.vec = buf
+    return ctx.ret(v)
+
+
 def install(eng):
     M = eng.models
     R = eng.model_rx
+    M["Box::new_uninit"] = m_box_new_uninit
+    M["std::boxed::box_assume_init_into_vec_unsafe"] = m_box_into_vec
     eng.iter_bound = 4
     eng.range_bound = 8
     M["core::slice::<impl [T]>::iter"] = m_slice_iter
@@ -825,5 +878,6 @@ def install(eng):
     M["<String as Deref>::deref"] = m_string_deref
     M["String::as_str"] = m_string_deref
     M["<String as Add>::add"] = m_string_add
+    M["<Vec as Extend>::extend"] = m_vec_extend
     R.append((re.compile(r"<&+\w+ as PartialEq>::(eq|ne)"), m_ref_partial_eq))
     R.append((re.compile(r"<(?!str\b|String\b|&)\w+ as PartialEq>::ne"), m_derived_ne))
